@@ -388,6 +388,9 @@ func cmdCheck(args []string) int {
 			if r.Q == "" {
 				r.Q = r.G.query(r.O)
 			}
+			if *keep && !strings.HasPrefix(r.Q, "; obligation ") {
+				r.Q = "; obligation " + r.O.Name + "\n" + r.Q
+			}
 			file := filepath.Join(wd, fmt.Sprintf("q%04d.smt2", i))
 			var mt []string
 			if r.G != nil {
